@@ -56,6 +56,15 @@ _ACCT_PLAIN = st.builds(lambda a, b: a + b, st.sampled_from(_AL), st.text(_AL + 
 ACCT = st.one_of(_ACCT_PLAIN, _ACCT_PLAIN, _ACCT_PLAIN, st.sampled_from(["3782 822463 10005", "DE89 3704 0044 0532", "12 34", "A B"]))
 
 
+NEAR_MISS_OPTS = ("org", "fid", "brokerid", "appid", "useragent", "user")
+
+
+def _lib_defaults():
+    from ofxtools.scripts import ofxget as _o
+
+    return {o: v for o, v in _o.DEFAULTS.items() if isinstance(v, str) and v}
+
+
 def url_st():
     return st.builds(lambda h, p: f"https://{h}.example.com/{p}", st.text("abcdefghijklmnopqrstuvwxyz", min_size=1, max_size=6), st.one_of(st.sampled_from(["ofx", "cgi/ofx?x=1&y=2", "a%20b", "q?u=%2F", "100%", "ofx?app=ofx&region=us&copy=1", "q?a=1&lt=2&amp=3&timestamp=4", "o?x=&#38;y"]), st.text(URLCH, min_size=0, max_size=10)))
 
@@ -274,6 +283,16 @@ class ConfigMachine(RuleBasedStateMachine):
         for o in list(cli_vals):
             if o in BOOL_OPTS:
                 cli_vals[o] = True  # the command line can only switch flags on
+        # near-miss regime: a command-line value that differs from what a lower-ranking source (FI database, library
+        # default) holds for this server only in letter case is still another value, and the command line wins
+        lower = dict(_lib_defaults())
+        lower.update({o: v for o, v in G.fidb().get(nick, {}).items() if v})
+        for o in sorted(cli_vals):
+            base = lower.get(o)
+            if o in NEAR_MISS_OPTS and isinstance(base, str) and base.swapcase() != base and not base.startswith("-"):
+                if data.draw(st.integers(0, 2), label=f"near-miss {o}") == 0:
+                    cli_vals[o] = data.draw(st.sampled_from([base.swapcase(), base.upper(), base.lower()]).filter(lambda v, b=base: v != b), label=f"cli near-miss {o}")
+                    self.flags.add("cli-value-case-variant-of-lower-source")
         user_vals = {o: (data.draw(value_st(o), label=f"user {o}"), k) for o, (_, k) in sorted(user.items())}
         for id_, opts in sorted(oh.items()):
             self.ofxhome[id_] = {o: data.draw(value_st(o), label=f"ofxhome {id_} {o}") for o in opts}
